@@ -35,11 +35,13 @@ __all__ = ['dump', 'dumps', 'loads', 'load']
 
 LABEL_VALID_CHARS = set(string.ascii_letters + string.digits + "'!\"#$%&(),.;?@_‘’{}~")
 LABEL_INVALID_FIRST_CHARS = set('eE.;' + string.digits)
-# identifiers the LP reader takes for something else (case-insensitive): section keywords,
+# identifiers the LP reader takes for something else (case-insensitive): section keywords
+# (also the first word of the two-word keywords "subject to" / "such that", which the reader
+# joins when two names follow each other in the Binary / General section),
 # and anything `strtod` starts to read as a number
 LABEL_RESERVED_WORDS = frozenset((
-    'minimize min minimum maximize max maximum st s.t. bounds bound binary binaries bin general '
-    'generals gen integer integers semi semis sos end free').split())
+    'minimize min minimum maximize max maximum st s.t. subject such bounds bound binary binaries bin '
+    'general generals gen integer integers semi semis sos end free').split())
 LABEL_INVALID_PREFIXES = ('inf', 'nan')
 
 
